@@ -234,6 +234,7 @@ func runPurge(rc *RunCtx, prop, variant string) *simkit.Violation {
 	}
 	_ = extra
 	indexStart := time.Now()
+	c14Resume := false
 	switch variant {
 	case "faulty":
 		// transient failures of index-chunk writes, list pages and reads
@@ -245,6 +246,13 @@ func runPurge(rc *RunCtx, prop, variant string) *simkit.Violation {
 			return c.Client == purger && c.Op == simkit.OpGet && c.Bucket == d.Blob
 		}}
 	case "fault-free", "dedup-onto-orphan":
+		if prop == "C14" && t.Bool(1, 3) {
+			// the operator runs the (complete, fault-free) index build a second time with --resume: the index stays exact
+			c14Resume = true
+			if chunk > 5 && t.Bool(2, 3) {
+				chunk = uint64(t.Pick(1, 1, 2, 3)) // many chunks
+			}
+		}
 		if t.Bool(1, 2) {
 			w.Faults = &simkit.FaultCfg{Stall: 60, Budget: 2, Eligible: func(c *simkit.Call) bool { return c.Client == purger }} // slow calls only: the 5-minute uploader fires
 		}
@@ -335,7 +343,7 @@ func runPurge(rc *RunCtx, prop, variant string) *simkit.Violation {
 		return pv
 	}
 	buildOK := bt.Err == nil && !purger.Dead
-	rerunComplete := variant == "crash-resume" && !purger.Dead && bt.Err == nil
+	rerunComplete := (variant == "crash-resume" || c14Resume) && !purger.Dead && bt.Err == nil
 	if rerunComplete {
 		w.Probe("resume-over-completed-index")
 	}
@@ -403,7 +411,8 @@ func runPurge(rc *RunCtx, prop, variant string) *simkit.Violation {
 				return Viol(prop, "index-duplicate-key", "PurgeBuildReverseIndex", k, "the index lists %s… %d times", k[:10], seen[k])
 			}
 		}
-		if idx.NumEntries != uint64(len(refAtIndex)) {
+		// (a run with --resume reports the keys it added itself: the statement is about the index, not that count)
+		if !rerunComplete && idx.NumEntries != uint64(len(refAtIndex)) {
 			return Viol(prop, "index-count", "PurgeBuildReverseIndex", "", "the command reports %d indexed keys, %d are referenced", idx.NumEntries, len(refAtIndex))
 		}
 	}
